@@ -1476,7 +1476,9 @@ lbool CoreSMTSolver::search(int nof_conflicts)
         search_counter++;
         CRef confl = propagate();
         runPeriodic();
-        if (not okContinue()) { break; }
+        // A conflict found by propagate() must be handled before leaving: at decision level 0 it is the
+        // proof of unsatisfiability and would otherwise be lost (the trail keeps the falsified clause).
+        if (confl == CRef_Undef and not okContinue()) { break; }
         if (confl != CRef_Undef) {
             if (conflicts > conflictsUntilFlip) {
                 flipState = not flipState;
